@@ -10,29 +10,32 @@ use rand_xoshiro::Xoshiro256StarStar;
 use serde_json::{json, Value};
 use std::io::Write;
 
+/// numbers are recorded as [hi, lo] in base 2^16 (PRECISION 32 does not fit TLC's integers otherwise)
+fn pr(v: u64) -> Value { json!([v >> 16, v & 0xffff]) }
 pub trait SymI64: Copy { fn to_i64(self) -> i64; }
 macro_rules! symi64 { ($($t:ty),*) => { $(impl SymI64 for $t { fn to_i64(self) -> i64 { self as i64 } })* } }
 symi64!(usize, i8, u8, i16, u16, i32, u32);
 
 fn record_enc<M, const P: usize>(m: &M, syms: &[M::Symbol]) -> Result<Vec<Value>, String>
 where M: EncoderModel<P>, M::Probability: VInt, M::Symbol: SymI64 {
-    guarded(|| syms.iter().map(|s| match m.left_cumulative_and_probability(*s) { Some((c, p)) => json!([s.to_i64(), c.to_u128() as u64, nz::<M::Probability>(p)]), None => json!([s.to_i64()]) }).collect())
+    guarded(|| syms.iter().map(|s| match m.left_cumulative_and_probability(*s) { Some((c, p)) => json!([s.to_i64(), pr(c.to_u128() as u64), pr(nz::<M::Probability>(p))]), None => json!([s.to_i64()]) }).collect())
 }
 fn record_dec<M, const P: usize>(m: &M, qs: &[u64]) -> Result<Vec<Value>, String>
 where M: DecoderModel<P>, M::Probability: VInt, M::Symbol: SymI64 {
-    guarded(|| qs.iter().map(|q| { let (s, c, p) = m.quantile_function(M::Probability::from_u128_trunc(*q as u128)); json!([q, s.to_i64(), c.to_u128() as u64, nz::<M::Probability>(p)]) }).collect())
+    guarded(|| qs.iter().map(|q| { let (s, c, p) = m.quantile_function(M::Probability::from_u128_trunc(*q as u128)); json!([pr(*q), s.to_i64(), pr(c.to_u128() as u64), pr(nz::<M::Probability>(p))]) }).collect())
 }
 fn record_iter<'m, M, const P: usize>(m: &'m M) -> Result<Vec<Value>, String>
 where M: IterableEntropyModel<'m, P>, M::Probability: VInt, M::Symbol: SymI64 {
-    guarded(|| m.symbol_table().map(|(s, c, p)| json!([s.to_i64(), c.to_u128() as u64, nz::<M::Probability>(p)])).collect())
+    guarded(|| m.symbol_table().map(|(s, c, p)| json!([s.to_i64(), pr(c.to_u128() as u64), pr(nz::<M::Probability>(p))])).collect())
 }
 /// table reconstructed from the encoder views (for models without `symbol_table`)
 fn rows_from_enc(enc: &Result<Vec<Value>, String>) -> Result<Vec<Value>, String> {
     enc.clone().map(|v| v.into_iter().filter(|x| x.as_array().unwrap().len() == 3).collect())
 }
 fn quantiles_for(rows: &[Value], prec: usize, rng: &mut Xoshiro256StarStar) -> Vec<u64> {
-    let t = 1u64 << prec; let mut qs = vec![0, t - 1];
-    for r in rows { let c = r[1].as_u64().unwrap_or(0); let p = r[2].as_u64().unwrap_or(1); qs.push(c.min(t - 1)); qs.push((c + p).saturating_sub(1).min(t - 1)); }
+    let t = 1u64 << prec; let mut qs = vec![0, t - 1, t / 2, t - 2, 1];
+    let un = |v: &Value| (v[0].as_u64().unwrap_or(0) << 16) | v[1].as_u64().unwrap_or(0);
+    for r in rows { let c = un(&r[1]); let p = un(&r[2]).max(1); qs.push(c.min(t - 1)); qs.push((c + p).saturating_sub(1).min(t - 1)); }
     for _ in 0..8 { qs.push(rng.gen_range(0..t)); }
     if prec <= 10 { qs = (0..t).collect(); }
     qs.sort(); qs.dedup(); qs
@@ -71,6 +74,8 @@ where Pr: VInt + AsPrimitive<usize> + Into<f64> + AsPrimitive<F>, usize: AsPrimi
         let w: Vec<F> = t64.iter().map(|x| AsPrimitive::<F>::as_(*x)).collect();
         let n = w.len();
         if n + 1 >= (1usize << P.min(30)) { continue; }
+        // larger tables at high precision: that is where float rounding of cumulative * scale matters
+        let (w, n) = if P >= 24 && rng.gen_bool(0.5) { let big: Vec<F> = (0..rng.gen_range(40..320usize)).map(|_| AsPrimitive::<F>::as_(rng.gen::<f64>() * if rng.gen_bool(0.1) { 1e-6 } else { 1.0 })).collect(); let l = big.len(); (big, l) } else { (w, n) };
         let syms: Vec<usize> = (0..n + 2).collect();
         rep.class(kind);
         let tag = format!("{} {} P={} n={} {:?}", fname, kind, P, n, &w[..n.min(5)]);
@@ -132,6 +137,9 @@ pub fn drive_models(seed: u64, n: usize, out: &str) -> Report {
     let mut rng = Xoshiro256StarStar::seed_from_u64(seed ^ 0x30de15);
     let mut f = std::io::BufWriter::new(std::fs::File::create(out).unwrap());
     float_tables::<u32, f32, 24>(&mut f, &mut rep, &mut rng, n, "f32");
+    float_tables::<u32, f32, 32>(&mut f, &mut rep, &mut rng, n, "f32");
+    float_tables::<u32, f64, 32>(&mut f, &mut rep, &mut rng, n / 2, "f64");
+    rep.class("precision_32");
     float_tables::<u32, f64, 24>(&mut f, &mut rep, &mut rng, n / 2, "f64");
     float_tables::<u16, f32, 12>(&mut f, &mut rep, &mut rng, n / 2, "f32");
     float_tables::<u16, f64, 16>(&mut f, &mut rep, &mut rng, n / 2, "f64");
